@@ -337,6 +337,8 @@ def run(ctx):
         c05b(ctx, tu)
         c05c(ctx, tu)
         protocol.report(ctx, tu, lambda r: True)   # the whole step protocol is a premise of this property
+        from rules import C06
+        C06.c05d5(ctx, tu)
         c05e(ctx, tu)
         c05f(ctx, tu)
         bad = protocol.monitor_limits_fixed(tu)
